@@ -224,3 +224,42 @@ def block_env(stmts, target, env=None, unpack=False):
 
 def spec_expr(text):
     return ast.parse(text, mode="eval").body
+
+
+def split_ifexp(e, az):
+    """[(condition formula, leaf expression)] of a (possibly nested) conditional expression; a plain expression is one case"""
+    from .. import guards as G
+    if isinstance(e, ast.IfExp):
+        c = az.formula(e.test)
+        return [(G.f_and(c, c2), leaf) for c2, leaf in split_ifexp(e.body, az)] + \
+               [(G.f_and(G.f_not(c), c2), leaf) for c2, leaf in split_ifexp(e.orelse, az)]
+    return [(G.T, e)]
+
+
+def label_conditions(prog, mod, fi, label, az_factory, pos=1):
+    """For a function returning tuples: (formula under which element `pos` is `label`, formula under which it is "", anything else
+    returned?).  Works for `return v, L if c else ""`, the arms the other way round, and if/return statements."""
+    from .. import guards as G
+    from ..model import own_nodes
+    f_lab, f_empty, other = [], [], False
+    for r in own_nodes(fi.node):
+        if not isinstance(r, ast.Return):
+            continue
+        if not (isinstance(r.value, ast.Tuple) and len(r.value.elts) > pos):
+            other = True
+            continue
+        env = block_env(fi.body, r) or {}
+        az = az_factory(env)
+        pc = G.reach(fi.body, r, az)
+        if pc is None:
+            other = True
+            continue
+        for c, leaf in split_ifexp(az.inline(r.value.elts[pos]), az):
+            k = prog.try_fold(mod, leaf)
+            if k == label:
+                f_lab.append(G.f_and(pc, c))
+            elif k == "":
+                f_empty.append(G.f_and(pc, c))
+            else:
+                other = True
+    return (G.f_or(*f_lab) if f_lab else G.F), (G.f_or(*f_empty) if f_empty else G.F), other
